@@ -1,5 +1,6 @@
 """C06: each of the 47 named metrics computes its published closed form (translation validation)."""
 
+import ast
 from ..rules_ift import Rep
 from ..rules_metrics import Metrics, check_closed_forms, check_decorator_domain, check_registry
 
@@ -35,8 +36,18 @@ def check(chk, repo):
     from ..core import Check
     from ..ir import Walker
     from .c19 import check_load
+    # (a private helper that only the constructor calls is part of the constructor)
+    callers = {}
+    for g in repo.all_functions():
+        for n in ast.walk(g.node):
+            if isinstance(n, ast.Call) and isinstance(n.func, ast.Attribute) and isinstance(n.func.value, ast.Name) \
+                    and n.func.value.id == "self":
+                callers.setdefault(n.func.attr, set()).add(g.qual)
     for fi in repo.all_functions():
         if fi.cls is None or fi.qual in ("OPF.__init__", "OPF.distance", "OPF.distance_fn"):
+            continue
+        if fi.cls == "OPF" and fi.name.startswith("_") and not fi.name.startswith("__") \
+                and callers.get(fi.name) == {"OPF.__init__"}:
             continue
         w = Walker(repo, fi, self_class=fi.cls, inline=lambda f: False)
         for e in w.events:
